@@ -35,9 +35,9 @@ CHECKS["C08"] = dict(
         "inputs are at most 1 KiB, so that per-series bookkeeping (about 50 bytes allocated per 4-byte key on the wire) stays inside the 64 KiB constant",
     ],
     tests=[
-        dict(name="TestC08RoundTrip", quick=dict(cases=120000, shards=4), thorough=dict(cases=250000, shards=16, timeout=1500)),
-        dict(name="TestC08Dynamic", quick=dict(cases=50000, shards=3), thorough=dict(cases=80000, shards=16, timeout=1500)),
-        dict(name="TestC08Bytes", vlimit_gb=8, quick=dict(cases=100000, shards=4, shrinktime="20s"), thorough=dict(cases=200000, shards=16, timeout=1500)),
+        dict(name="TestC08RoundTrip", quick=dict(cases=150000, shards=4), thorough=dict(cases=250000, shards=16, timeout=1500)),
+        dict(name="TestC08Dynamic", quick=dict(cases=60000, shards=3), thorough=dict(cases=80000, shards=16, timeout=1500)),
+        dict(name="TestC08Bytes", vlimit_gb=8, quick=dict(cases=120000, shards=4, shrinktime="20s"), thorough=dict(cases=200000, shards=16, timeout=1500)),
         dict(name="TestC08BytesFresh", vlimit_gb=8, quick=dict(cases=50000, shards=2, shrinktime="20s"), thorough=dict(cases=60000, shards=16, timeout=1500)),
     ],
 )
